@@ -7,6 +7,7 @@ import (
 	"fmt"
 	"net"
 	"net/http"
+	"sioverif/internal/portlock"
 	"sync"
 	"time"
 
@@ -50,7 +51,7 @@ func Serve(io *sio.Server, h http.Handler, addr string) (*Server, error) {
 	var l net.Listener
 	var err error
 	for i := 0; i < 50; i++ {
-		l, err = net.Listen("tcp", addr)
+		l, err = portlock.Listen(addr)
 		if err == nil {
 			break
 		}
@@ -59,6 +60,7 @@ func Serve(io *sio.Server, h http.Handler, addr string) (*Server, error) {
 	if err != nil {
 		return nil, err
 	}
+	releaseHold(l.Addr().String())
 	mux := http.NewServeMux()
 	mux.Handle("/socket.io/", h)
 	s := &Server{IO: io, L: l, Addr: l.Addr().String()}
@@ -78,15 +80,44 @@ func (s *Server) Close() {
 	})
 }
 
-// Kill closes listener and connections without telling the Socket.IO layer first.
+var (
+	holdMu sync.Mutex
+	holds  = map[string]func(){}
+)
+
+func releaseHold(addr string) {
+	holdMu.Lock()
+	rel := holds[addr]
+	delete(holds, addr)
+	holdMu.Unlock()
+	if rel != nil {
+		rel()
+	}
+}
+
+// Kill closes listener and connections without telling the Socket.IO layer first. The port stays
+// reserved (connections are refused, nobody else is handed the port) until a server is started on
+// the same address again or ReleasePort is called: trials run in parallel.
 func (s *Server) Kill() {
 	s.once.Do(func() {
+		if rel, err := portlock.Hold(s.Addr); err == nil {
+			holdMu.Lock()
+			old := holds[s.Addr]
+			holds[s.Addr] = rel
+			holdMu.Unlock()
+			if old != nil {
+				old()
+			}
+		}
 		s.HTTP.Close()
 		if s.IO != nil {
 			go s.IO.Close()
 		}
 	})
 }
+
+// ReleasePort gives up the reservation Kill left on addr (no-op without one).
+func ReleasePort(addr string) { releaseHold(addr) }
 
 // EIOServer is a real Engine.IO server behind its own listener.
 type EIOServer struct {
